@@ -252,9 +252,10 @@ theorem nongate_order (cfg : Cfg) (S out : List Instr) (h : transpile cfg S = .o
 FULL STATEMENT of C08 (kept visible; FALSE on the current tree, see F10 below):
   for every vanilla subroutine `S` the SDK can emit (Q registers written by `set` OR by `load`),
   `transpile cfg S = .ok out`, and the serialised `out` simulates `S` step for step.
-What is proved is the statement restricted to `QStatic` programs (`…_partial`): every instruction
-other than `set` reads Q registers only straight after a `set` of them, the shape the SDK emits for
-handles with constant ids. Outside `QStatic` the pass raises or picks the wrong circuit (F10,
+What is proved is the statement restricted to `QStatic` programs (`…_partial`): every GATE reads its
+Q registers straight after a `set` of them (the shape the SDK emits for handles with constant ids);
+other instructions may also read Q registers written by `load`/`add`/… provided the pass never
+borrows that register. Outside `QStatic` the pass raises or picks the wrong circuit (F10,
 `f10_counterexample_*`). `QStatic` includes the SDK's multi-pair EPR shape `set R4 0; mov R4 R3`
 (a `mov` out of a register just `set` to 0, target id computed at run time).
 
@@ -364,6 +365,33 @@ theorem seeded_qfree_register_live :
     getUnused (((freeThenRealloc.take 8).flatMap topRegs).filter (· != ⟨2, 2⟩)) = .ok ⟨2, 2⟩ := by
   decide +kernel
 
+/-- the program of seeded change C08_17: `Q0` is written by `load` (never a gate operand, so this is
+not F10), stays live across the carbon–carbon `cnot Q1 Q2`, and is read by `meas`/`qfree` afterwards -/
+def loadLiveAcrossCC : List Instr := [
+  ⟨"core.SetInstruction", [rreg 0, .imm 0]⟩,
+  ⟨"core.SetInstruction", [qreg 4, .imm 0]⟩, ⟨"core.SetInstruction", [qreg 1, .imm 1]⟩,
+  ⟨"core.SetInstruction", [qreg 2, .imm 2]⟩, ⟨"core.SetInstruction", [qreg 3, .imm 3]⟩,
+  ⟨"vanilla.GateHInstruction", [qreg 1]⟩,
+  ⟨"core.LoadInstruction", [qreg 0, .entry 0 ⟨0, 0⟩]⟩,
+  ⟨"vanilla.CnotInstruction", [qreg 1, qreg 2]⟩,
+  ⟨"core.MeasInstruction", [qreg 0, .reg ⟨3, 0⟩]⟩,
+  ⟨"core.QFreeInstruction", [qreg 0]⟩]
+
+/-- why `scratch_ok` excludes the seeded change "only `set` marks a register as used": `scratch_ok`
+speaks about EVERY register mentioned at or before the gate, whatever instruction mentioned it. Here
+the program is inside `QStatic` (`Q0` is never borrowed, so `meas Q0` may read it outside a window),
+`Q0` is mentioned by the `load` before the gate at position 7, and the pass borrows `Q5`; with only
+the `set`-written registers counted, `get_unused_register` would return `Q0`, for which
+`r ∉ …flatMap topRegs` of `scratch_ok` is false. -/
+theorem seeded_load_written_register_named :
+    QStatic (Gen.cfg false false) loadLiveAcrossCC = true ∧
+    getUnused ((loadLiveAcrossCC.take 8).flatMap topRegs) = .ok ⟨2, 5⟩ ∧
+    (⟨2, 0⟩ : Reg) ∈ (loadLiveAcrossCC.take 8).flatMap topRegs ∧
+    scratchRegs (Gen.cfg false false) loadLiveAcrossCC = [⟨2, 5⟩] ∧
+    getUnused (((loadLiveAcrossCC.take 8).filterMap (fun i =>
+      (setOf (Gen.cfg false false) i).map (·.1)))) = .ok ⟨2, 0⟩ := by
+  decide +kernel
+
 /-- **transpile_simulates (partial: under `QStatic`)**. Every finite execution of the vanilla
 subroutine from `s0` to `(pc, s)` is matched by an execution of the serialised NV subroutine from
 the same `s0` to `(index_changes pc, u)` — pc correspondence through the index map — with
@@ -397,7 +425,7 @@ theorem transpile_simulates_final_partial {μ : Type} (M : Sem μ) (cfg : Cfg)
     (s0 s : St μ) (hrun : Steps M cfg S (0, s0) (S.length, s)) :
     ∃ cs u, Chunks cfg [] [] S cs ∧ Steps M cfg (serialise out) (0, s0) ((serialise out).length, u) ∧
       s.mem = u.mem ∧
-      ∀ r, (r.bank ≠ bankQ ∨ ¬ ScratchSet S r) → (endTargeted cfg S cs = false ∨ r ≠ rp) →
+      ∀ r, (r.bank ≠ bankQ ∨ ¬ ScratchSet cfg S r) → (endTargeted cfg S cs = false ∨ r ≠ rp) →
         s.regs r = u.regs r := by
   obtain ⟨cs, hc, hidx, hout, hok⟩ := transpile_structure h
   have C : Ctx M cfg S out cs := ⟨hT, hW, hpad, hL, hE, hQ, hc, hout, hok⟩
